@@ -53,7 +53,10 @@ type Script struct {
 	// Store: "" (no event store) | memory (MemoryEventStore) | failclose (a MemoryEventStore whose
 	// SessionClosed reports an error after doing its work, as a remote store that has become unreachable would)
 	Store string `json:"store,omitempty"`
-	Steps []Step `json:"steps"`
+	// SkewNS > 0: RequireBearerToken is given this ClockSkew and the token "tok-alice2" is one whose expiry passed
+	// SkewNS/2 ago at every use: still a good credential of user alice under the documented tolerance.
+	SkewNS int64  `json:"skew_ns,omitempty"`
+	Steps  []Step `json:"steps"`
 }
 
 type Step struct {
@@ -104,6 +107,9 @@ func gen(rt *rapid.T) Script {
 	s.JSON = rapid.IntRange(0, 3).Draw(rt, "json") == 0
 	if !s.Stateless {
 		s.Store = rapid.SampledFrom([]string{"", "", "memory", "failclose"}).Draw(rt, "store")
+	}
+	if s.Auth != "none" && rapid.IntRange(0, 2).Draw(rt, "skew") == 0 {
+		s.SkewNS = int64(rapid.SampledFrom([]time.Duration{2, time.Second, time.Minute}).Draw(rt, "skew_ns"))
 	}
 	n := rapid.IntRange(3, 28).Draw(rt, "n")
 	kinds := []string{"init", "init", "init", "initbad", "other", "post", "post", "post", "post", "post", "post", "long", "long", "get", "get", "del", "del", "release", "release", "close", "adv", "adv", "adv", "adv", "advrace", "race"}
@@ -1390,12 +1396,20 @@ func runInBubble(s Script) (res vt.Result) {
 	verifier := func(ctx context.Context, token string, _ *http.Request) (*auth.TokenInfo, error) {
 		for _, u := range users[1:] {
 			if u.token == token {
+				if s.SkewNS > 0 && u.name == "alice2" {
+					return &auth.TokenInfo{UserID: u.uid, Expiration: time.Now().Add(-time.Duration(s.SkewNS / 2))}, nil
+				}
 				return &auth.TokenInfo{UserID: u.uid, Expiration: time.Now().Add(10000 * time.Hour)}, nil
 			}
 		}
 		return nil, auth.ErrInvalidToken
 	}
-	protected := auth.RequireBearerToken(verifier, nil)(base)
+	var bearerOpts *auth.RequireBearerTokenOptions
+	if s.SkewNS > 0 {
+		bearerOpts = &auth.RequireBearerTokenOptions{ClockSkew: time.Duration(s.SkewNS)}
+		w.res.Class("credential_inside_the_clock_skew_tolerance")
+	}
+	protected := auth.RequireBearerToken(verifier, bearerOpts)(base)
 	var handler http.Handler = base
 	switch s.Auth {
 	case "required":
